@@ -171,6 +171,59 @@ fn build_resized(df: &Df, deltas: &[(usize, i32)]) -> Option<Vec<u8>> {
     Some(out)
 }
 
+/// A file whose tables are consistent with each other but announce one thing more than is
+/// stored: a phantom item (counted in the last type, in a type of its own, or in no type) whose
+/// offset lies `delta` bytes from the end of the item section, or a phantom data block whose
+/// offset lies `delta` bytes from the end of the data section. Header totals are adjusted.
+fn build_phantom(df: &Df, kind: u8, delta: i32) -> Option<Vec<u8>> {
+    let mut b = build(df);
+    let mut nt = df.types.len();
+    let ni: usize = df.types.iter().map(|t| t.1.len()).sum();
+    let nd = df.data.len();
+    let (item_size, data_size) = (b.meta[6], b.meta[7]);
+    let mut added = 0;
+    let mut ins = |b: &mut Built, pos: usize, v: i32, name: &str| {
+        b.meta.insert(pos, v);
+        b.names.insert(pos, name.to_string());
+    };
+    match kind {
+        0 | 1 | 2 => {
+            if kind == 0 {
+                if nt == 0 {
+                    return None;
+                }
+                b.meta[8 + 3 * (nt - 1) + 2] += 1;
+            }
+            if kind == 1 {
+                let p = 8 + 3 * nt;
+                ins(&mut b, p, 0x7777, "phantom_type.type_id");
+                ins(&mut b, p + 1, ni as i32, "phantom_type.start");
+                ins(&mut b, p + 2, 1, "phantom_type.num");
+                b.meta[3] += 1;
+                nt += 1;
+                added += 3;
+            }
+            ins(&mut b, 8 + 3 * nt + ni, item_size + delta, "phantom_item_offset");
+            b.meta[4] += 1;
+            added += 1;
+        }
+        _ => {
+            ins(&mut b, 8 + 3 * nt + ni + nd, data_size + delta, "phantom_data_offset");
+            added += 1;
+            if df.version == 4 {
+                ins(&mut b, 8 + 3 * nt + ni + nd + 1 + nd, 4, "phantom_data_size");
+                added += 1;
+            }
+            b.meta[5] += 1;
+        }
+    }
+    b.meta[1] += 4 * added;
+    b.meta[2] += 4 * added;
+    Some(bytes_of(&b))
+}
+
+const PHANTOM_KINDS: [&str; 4] = ["item in the last type", "item in a type of its own", "item in no type", "data block"];
+
 fn bytes_of(b: &Built) -> Vec<u8> {
     let mut out = b"DATA".to_vec();
     for w in &b.meta {
@@ -588,7 +641,8 @@ fn base_maps() -> Vec<Df> {
 
 fn main() {
     let run = Run::new("C16", "exploration");
-    let thorough = run.tier == Tier::Thorough;
+    let deep = run.tier == Tier::Thorough;
+    let thorough = true;
     // --- A. datafile level
     let family = wellformed_family(thorough);
     run.set("wellformed_files", json!(family.len()));
@@ -653,6 +707,14 @@ fn main() {
                     }
                 }
             }
+            // tables consistent with each other that announce one item / data block too many
+            for kind in 0..4u8 {
+                for delta in [-12, -8, -5, -4, -3, -1, 0, 1, 4, 8] {
+                    if let Some(b) = build_phantom(df, kind, delta) {
+                        report(&mut lc, "phantom".into(), vp_core::catch(|| traverse_raw(&b, None)), &|| json!({"df": format!("{:?}", df), "phantom": PHANTOM_KINDS[kind as usize], "offset_from_section_end": delta, "file_hex": vp_core::hex(&b)}));
+                    }
+                }
+            }
             for magic in [&b"ATAD"[..], b"DATB", b"\0\0\0\0"] {
                 let mut b = bytes.clone();
                 b[..4].copy_from_slice(magic);
@@ -664,7 +726,7 @@ fn main() {
     run.merge_classes(lc);
     // double corruptions of table words (thorough) on a few files
     if thorough {
-        let picks: Vec<&Df> = family.iter().filter(|d| d.types.len() == 2 && d.data.len() == 2).take(6).collect();
+        let picks: Vec<&Df> = family.iter().filter(|d| d.types.len() == 2 && d.data.len() == 2).take(if deep { 40 } else { 6 }).collect();
         for df in picks {
             let built = build(df);
             let past = (built.meta.len() * 4 + built.data.len()) as i32;
@@ -726,7 +788,7 @@ fn main() {
             .fold(LocalClasses::new, |mut lc, &i| {
                 let mut todo: Vec<Vec<(usize, i32)>> = vals.iter().filter(|v| **v != built.meta[i]).map(|v| vec![(i, *v)]).collect();
                 if thorough {
-                    for j in (i + 1)..(i + 6).min(built.meta.len()) {
+                    for j in (i + 1)..(i + if deep { 14 } else { 6 }).min(built.meta.len()) {
                         for &x in &vals {
                             for &y in &vals {
                                 todo.push(vec![(i, x), (j, y)]);
@@ -777,7 +839,7 @@ fn main() {
     }
     run.assume("files are presented to raw::Reader through in-memory callbacks (datafile level) and to datafile::Reader::new(File) / map::Reader::from_datafile through a memfd (file reader and map level); the in-memory callback refuses data buffers above 64 MiB");
     run.finish(
-        "an independent v3/v4 writer (doc/datafile.md, zlib via the repository's binding) produces a family of well-formed files (0-3 item types, 0-2 items each with 0-3 words, 0-3 data blocks) which must be returned exactly; every header / type-table / offset / size / item word set to ~20 boundary values (thorough: also all pairs on selected files), truncation at every byte, data byte flips, magic variants; a hand-built valid map (version, info, images, envelope, groups, tile/tele/quad layers) with every item word set to 18 boundary values (thorough: neighbouring pairs) and data blocks resized; after opening, every accessor of the datafile and map readers is called",
+        "an independent v3/v4 writer (doc/datafile.md, zlib via the repository's binding) produces a family of well-formed files (0-3 item types, 0-2 items each with 0-3 words, 0-3 data blocks) which must be returned exactly; every header / type-table / offset / size / item word set to ~20 boundary values and all pairs on 6 selected files (thorough: 40 files), truncation at every byte, data byte flips, magic variants, mutually consistent tables that announce one item or data block more than is stored (offset at and around the end of the section); a hand-built valid map (version, info, images, envelope, groups, tile/tele/quad layers) with every item word set to 18 boundary values and pairs of words up to 5 apart (thorough: up to 13 apart) and data blocks resized; after opening, every accessor of the datafile and map readers is called",
         true,
     );
 }
